@@ -368,6 +368,49 @@ pub fn long_unit_grammar() -> Vec<Vec<BitOp>> {
             }
         }
     }
+    // three-phase small-count grid R^a X^b P: a faults (rejected frames or abandoned partial
+    // frames), b good frames, then a probe, for EVERY a in 1..=16 and b in 0..=48
+    {
+        let faults: Vec<Vec<BitOp>> = vec![word_ops(x ^ 0x200, 11), word_ops(0x7FF, 11), word_ops(0x000, 11), { let mut v = word_ops(x, 3); v.push(BitOp::Clear); v }];
+        let probes: Vec<Vec<BitOp>> = vec![
+            [word_ops(x | 1, 11), word_ops(x, 11)].concat(),
+            [word_ops(x & !0x400, 11), word_ops(x, 11)].concat(),
+            [word_ops(x ^ 0x200, 11), word_ops(x, 11), word_ops(x, 11)].concat(),
+            [word_ops(x ^ 0x008, 11), word_ops(x, 11)].concat(),
+        ];
+        for f in &faults {
+            for a in 1..=16usize {
+                for b in 0..=48usize {
+                    for p in &probes {
+                        let mut v: Vec<BitOp> = Vec::new();
+                        for _ in 0..a { v.extend(f.iter().copied()); }
+                        for _ in 0..b { v.extend(word_ops(x, 11)); }
+                        v.extend(p.iter().copied());
+                        out.push(v);
+                    }
+                }
+            }
+        }
+    }
+    // two-scale periodic (U1^p U2^b)^6: long good runs separated by short fault bursts
+    for a in &units {
+        for b in &units {
+            if a == b { continue; }
+            for p in [255usize, 256, 512, 513, 1024] {
+                for nb in [1usize, 2, 3] {
+                    let mut v: Vec<BitOp> = Vec::new();
+                    for _ in 0..6 {
+                        for _ in 0..p { v.extend(a.iter().copied()); }
+                        for _ in 0..nb { v.extend(b.iter().copied()); }
+                    }
+                    v.extend(word_ops(x, 11));
+                    v.extend(word_ops(x | 1, 11));
+                    v.extend(word_ops(x, 11));
+                    out.push(v);
+                }
+            }
+        }
+    }
     for a in &units {
         for b in &units {
             for (i, j) in [(1100usize, 1100usize), (2200, 1100), (1100, 2200)] {
@@ -639,7 +682,7 @@ pub fn c06(run: &mut Run) {
         }
         let g3a = fam.len();
         let traffic: Vec<u8> = vec![0x12, 0x1C, 0xF0, 0x1C, 0x1C, 0x1C, 0xE0, 0x75, 0xE0, 0xF0, 0x75, 0xF0, 0x12, 0x58, 0xF0, 0x58, 0x77, 0x77, 0xF0, 0x77];
-        for r in [0usize, 100, 33, 10, 3] {
+        for r in [0usize, 100, 64, 33, 16, 10, 6, 3] {
             for t in [0usize, 100, 33, 10] {
                 let mut v: Vec<BitOp> = Vec::new();
                 for i in 0..6000usize {
@@ -680,7 +723,7 @@ pub fn c06(run: &mut Run) {
             c06_eval_ops(run, v);
         }
         run.total_violating_cases += bad.len().saturating_sub(6) as u64;
-        run.part("deep_history_families", json!({"X^n.R^k.X.C(X)": g3a, "noisy_line_workloads(6000 frames)": g3b, "U1^i.U2^j(units: frames, partial frame + clear; i,j up to 2200)": fam.len() - g3a - g3b, "failing": bad.len()}));
+        run.part("deep_history_families", json!({"X^n.R^k.X.C(X)": g3a, "noisy_line_workloads(6000 frames)": g3b, "U1^i.U2^j(units: frames, partial frame + clear; i,j up to 2200; burst cycles; R^a.X^b.P for every a<=16, b<=48; two-scale (U1^p.U2^b)^6 with p up to 1024)": fam.len() - g3a - g3b, "failing": bad.len()}));
     }
 
     // (c') pumping: the same frame / partial frame + clear() repeated far beyond 2^16 bits
